@@ -287,6 +287,14 @@ def pow2_sizes(max_n):
     return sorted(x for x in s if x <= max(max_n, 32))
 
 
+D27_WEIGHTS = [0] * 6 + [w for w in range(1, 7) for _ in range(3)] + [7]
+
+
+def _d27_case():
+    h = ac.bare_host(len(D27_WEIGHTS))
+    return {'host': h, 'k0': 1, 'call': ['weighted', ['enum', 'XAIG'], [[w, l] for w, l in zip(D27_WEIGHTS, h['inputs'])]]}
+
+
 def corpus_cases():
     """minimal inputs of the defects found on the pinned tree (D5, D6, D7); run first on every check"""
     h2 = ac.bare_host(2)
@@ -297,6 +305,7 @@ def corpus_cases():
         {'host': h2, 'k0': 1, 'call': ['pow2', ['enum', 'AIG'], False, ['0', '1']]},
         {'host': h2, 'k0': 1, 'call': ['shift', 2, ['0'], ['1'], False]},
         {'host': h2, 'k0': 1, 'call': ['shift', 3, ['0'], ['1'], True]},
+        _d27_case(),
     ]
 
 
@@ -394,6 +403,7 @@ def gen_cases(rng, max_n=8):
             cases.append({'gen': ['gweighted', ws, spell(rng, which)], 'k0': 1})
             cases.append({'gen': ['gnaive', ws, spell(rng, which)], 'k0': 1})
     cases.append({'gen': ['gweighted', pp_shape(3, 3), ['str', 'aig']], 'k0': 1})
+    cases.append({'gen': ['gweighted', list(D27_WEIGHTS), ['str', 'xaig']], 'k0': 1})
     cases.append({'gen': ['gnaive', pp_shape(3, 2), ['str', 'Aig']], 'k0': 1})
     cases.append({'gen': ['gnbits', 0, ENUMS[0], False], 'k0': 1})
     cases.append({'gen': ['gweighted', [], ENUMS[0]], 'k0': 1})
@@ -449,9 +459,28 @@ def allowed_types(call):
     return XAIG_TYPES, 'XAIG'
 
 
+BOUND_RE = re.compile(r'not more than\s+([0-9.]+)\s*\*\s*n\s*-\s*([0-9.]+)\s*\*\s*m\s+in\s+xaig\s+and\s+'
+                      r'([0-9.]+)\s*\*\s*n\s*-\s*([0-9.]+)\s*\*\s*m\s+in\s+aig')
+DOC_OWNER = {'nbits': 'add_sum_n_bits', 'weighted': 'add_sum_n_weighted_bits', 'naive': 'add_sum_n_weighted_bits_naive',
+             'gnbits': 'add_sum_n_bits', 'gweighted': 'generate_sum_weighted_bits_efficient',
+             'gnaive': 'generate_sum_weighted_bits_naive'}
+
+
+def documented_bound(kind, aig):
+    """(a, b, text) with the DOCUMENTED bound `gates <= a * n - b * m` of the function behind `kind`, read
+    from its docstring in the tree under test (fractions.Fraction); None when the docstring states no
+    bound of the expected shape (the caller fails closed)"""
+    from fractions import Fraction
+    doc = getattr(_sm(), DOC_OWNER[kind]).__doc__ or ''
+    m = BOUND_RE.search(' '.join(doc.split()))
+    if not m:
+        return None
+    a, b = (m.group(3), m.group(4)) if aig else (m.group(1), m.group(2))
+    return Fraction(a), Fraction(b), f'{a} * n - {b} * m'
+
+
 def gate_bound(call, n_added, lists):
-    """the documented gate-count bounds (docstrings of add_sum_n_bits, add_sum_n_weighted_bits(_naive));
-    2 * bound to stay in integers"""
+    """the documented gate-count bounds (docstrings of add_sum_n_bits, add_sum_n_weighted_bits(_naive))"""
     k = call[0]
     if k == 'cell':
         if n_added != CELL_GATES[call[1]]:
@@ -461,14 +490,11 @@ def gate_bound(call, n_added, lists):
         return None
     n = len(operand_labels(call)[0])
     m = len(lists[0])
-    aig = resolved(call[1]) == 'AIG'
-    if aig:
-        twice, text = 14 * n - 6 * m, '7 * n - 3 * m'
-    elif k == 'naive':
-        twice, text = 10 * n - 6 * m, '5 * n - 3 * m'
-    else:
-        twice, text = 9 * n - 4 * m, '4.5 * n - 2 * m'
-    if 2 * n_added > twice:
+    d = documented_bound(k, resolved(call[1]) == 'AIG')
+    if d is None:
+        return f'{DOC_OWNER[k]}: the docstring no longer states a gate-count bound of the form a * n - b * m'
+    a, b, text = d
+    if n_added > a * n - b * m:
         return f'{n_added} gates added for n = {n}, m = {m}: more than the documented {text}'
     return None
 
@@ -607,10 +633,11 @@ def oracle_gen(case, rng, limit_bits=14):
         if t not in allowed or len(ops) > 2:
             return f'{k} with basis {resolved(b)} contains the gate {t}'
     m = len(dump['outputs'])
-    aig = resolved(b) == 'AIG'
-    twice = 14 * n - 6 * m if aig else (10 * n - 4 * m if k == 'gnaive' else 9 * n - 4 * m)
-    if 2 * len(added) > twice:
-        return f'{k}: {len(added)} gates for n = {n}, m = {m} exceed the documented bound'
+    d = documented_bound(k, resolved(b) == 'AIG')
+    if d is None:
+        return f'{DOC_OWNER[k]}: the docstring no longer states a gate-count bound of the form a * n - b * m'
+    if len(added) > d[0] * n - d[1] * m:
+        return f'{k}: {len(added)} gates for n = {n}, m = {m} exceed the documented {d[2]}'
     for asg in ac.assignments(rng, ins, limit_bits):
         vec = [asg[i] for i in ins]
         o = c.evaluate(vec)
